@@ -28,7 +28,8 @@ def run(ctx, chk):
     if not mains:
         return
     outs = I.exec_fn(St(), mains[0], [])
-    chk.ob(len(outs) >= 3, "C20/paths/%d" % len(outs), "main has %d paths; expected at least Complete / Incomplete / Err per line" % len(outs))
+    chk.ob(len(outs) >= 1 and len(I.item_paths) >= 3, "C20/paths/%d/%d" % (len(outs), len(I.item_paths)),
+           "main has %d paths and %d per-line paths; expected at least Complete / Incomplete / Err per line and a normal return" % (len(outs), len(I.item_paths)))
     # ---- (c) line source, drain, normal return
     for (st, rv) in outs:
         src = [e for e in st.events if e[0] == "line_source"]
@@ -40,7 +41,7 @@ def run(ctx, chk):
         chk.ob(len(dr) == 1, "C20/drain/%d" % len(dr), "the line iterator is drained %d times" % len(dr))
     # ---- (d) the tool itself never touches the parser between lines: the only access to the
     #      parser object after the line loop has started is the library call on it
-    for (st, rv) in outs:
+    for st in [o[0] for o in outs] + list(I.item_paths):
         pcs = set(e[2][0] for e in st.events if e[0] == "extcall" and e[1].endswith("AisParser::parse") and e[2] and e[2][0])
         started = False
         for e in st.events:
@@ -51,7 +52,12 @@ def run(ctx, chk):
     chk.ob(True, sample={"parser_object": "only passed to AisParser::parse"})
     # ---- (b) one record per line on the right stream
     kinds = {}
-    for (st, rv) in outs:
+    item_states = list(I.item_paths)
+    for st in item_states:
+        early = [e for e in st.events if e[0] == "loop_return"]
+        chk.ob(not early, "C20/early-exit", "a path through the per-line code leaves main before the end of input")
+    for st in item_states:
+        rv = None
         items = [e for e in st.events if e[0] == "item"]
         outp = [e for e in st.events if e[0] == "output"]
         if not items:
